@@ -64,6 +64,12 @@ pub fn run(args: &Args, rep: &mut Report) {
             let d = contract.predicates[r.below(np)].clone();
             contract.predicates.push(d);
         }
+        if r.chance(0.03) {
+            // a predicate at the validator's limits (0 / 1 / 999 / 1000 nodes and edges), anywhere in the contract
+            let at = r.below(contract.predicates.len() + 1);
+            contract.predicates.insert(at, crate::formats::gen_predicate(&mut r, true));
+            rep.count("contracts_with_limit_size_predicate");
+        }
         let np = contract.predicates.len();
         let case = |what: &str| json!({"engine": "sign", "what": what, "secret_key": hex::encode(sk.secret_bytes()), "contract": contract});
         crate::wal(&|| case("sign"));
